@@ -253,7 +253,18 @@ func pinnedC01() []*pgen.Case {
 		pinnedHelperNameClash("pin_helper_clash_struct", "// goverter:output:file ./p.gen.go\n", false),
 		pinnedHelperNameClash("pin_helper_clash_vars", "", true),
 		pinnedSameName("pin_same_impl_name", false), pinnedSameName("pin_same_func_name", true),
-		pinnedFuncTypes("pin_func_types"), pinnedBlankFields("pin_blank_fields")}
+		pinnedFuncTypes("pin_func_types"), pinnedBlankFields("pin_blank_fields"), pinnedSameNameTwoFiles("pin_same_name_two_files")}
+}
+
+// pinnedSameNameTwoFiles: the same identifier declared by two converters that write DIFFERENT files of one package.
+func pinnedSameNameTwoFiles(name string) *pgen.Case {
+	files := map[string]string{}
+	for _, pk := range []string{"alpha", "beta"} {
+		files[pk+"/input.go"] = "package " + pk + "\n\ntype In struct{ V int }\ntype Out struct{ V int }\n\n// goverter:converter\n// goverter:output:file @cwd/out/" + pk + ".go\n// goverter:output:package vcase/" + name + "/out\ntype Converter interface {\n\tConvert(source In) Out\n}\n"
+	}
+	c := pgen.RawCase(name, files, nil, []string{"./alpha", "./beta"})
+	c.Feature("tag", "same-name")
+	return c
 }
 
 // pinnedBlankFields: blank fields cannot be read or assigned, also not when the output lands in the package of the types.
